@@ -1282,4 +1282,617 @@ theorem validate_partial' {σ : Type} (c : Config) (L : Learner σ V) (bs : Opti
         · exact absurd h hp.2
       · rw [hp] at hh; cases hh
 
+/-! ## batching -/
+
+/-- a learner whose answers do not depend on its state (what it has seen so far) -/
+structure Oblivious {σ : Type} (L : Learner σ V) (f : Option V → Option (List V) → Pred V)
+    (g : Option V → Option (List V) → Option V → Rat) : Prop where
+  pred : ∀ s c a, (L.predict s c a).2 = f c a
+  score : ∀ s c a x, (L.score s c a x).2 = g c a x
+
+def mapE {α β : Type} (F : α → Except Err β) : List α → Except Err (List β)
+  | [] => .ok []
+  | x :: xs => (F x).bind fun y => (mapE F xs).bind fun ys => .ok (y :: ys)
+
+omit [DecidableEq V] [RewardFn R V] in
+theorem prepAll_eq_mapE (c : Config) (fl : Flags) (ds : List (Dict (Fld V R))) : prepAll c fl ds = mapE (prep c fl) ds := by
+  induction ds with
+  | nil => rfl
+  | cons d ds ih => simp only [prepAll, mapE, ih, bind, Except.bind, pure, Except.pure]
+
+omit [DecidableEq V] [RewardFn R V] in
+theorem predictPhase_preds {σ : Type} {L : Learner σ V} {f g} (ho : Oblivious L f g) (rows : List (RowIn V R)) (s : σ) :
+    (predictPhase L s rows).2.1 = rows.map (fun r => f r.ctx r.acts) := by
+  have key : ∀ (acc : σ × List (Pred V) × List (Call V)),
+      (rows.foldl (fun (acc : σ × List (Pred V) × List (Call V)) r =>
+        ((L.predict acc.1 r.ctx r.acts).1, acc.2.1 ++ [(L.predict acc.1 r.ctx r.acts).2], acc.2.2 ++ [Call.predict r.ctx r.acts])) acc).2.1
+        = acc.2.1 ++ rows.map (fun r => f r.ctx r.acts) := by
+    induction rows with
+    | nil => intro acc; simp
+    | cons r rs ih => intro acc; simp only [List.foldl_cons]; rw [ih]; simp [ho.pred]
+  have := key (s, [], [])
+  simpa [predictPhase] using this
+
+omit [DecidableEq V] [RewardFn R V] in
+theorem scorePhase_scores {σ : Type} {L : Learner σ V} {f g} (ho : Oblivious L f g) (rows : List (RowIn V R)) (s : σ) :
+    (scorePhase L s rows).2.1 = rows.map (fun r => g r.ctx r.acts r.offAct) := by
+  have key : ∀ (acc : σ × List Rat × List (Call V)),
+      (rows.foldl (fun (acc : σ × List Rat × List (Call V)) r =>
+        ((L.score acc.1 r.ctx r.acts r.offAct).1, acc.2.1 ++ [(L.score acc.1 r.ctx r.acts r.offAct).2],
+          acc.2.2 ++ [Call.score r.ctx r.acts r.offAct])) acc).2.1
+        = acc.2.1 ++ rows.map (fun r => g r.ctx r.acts r.offAct) := by
+    induction rows with
+    | nil => intro acc; simp
+    | cons r rs ih => intro acc; simp only [List.foldl_cons]; rw [ih]; simp [ho.score]
+  have := key (s, [], [])
+  simpa [scorePhase] using this
+
+/-- the row of one interaction when the learner's answers are given by `f`, `g` -/
+def pureRow (c : Config) (fl : Flags) (hs b : Bool) (f : Option V → Option (List V) → Pred V)
+    (g : Option V → Option (List V) → Option V → Rat) (r : RowIn V R) : Except Err (Row V R) :=
+  let sp := shouldPred c hs
+  let sb := c.eval == .ips && hs && !sp
+  let p := if sp then some (f r.ctx r.acts) else none
+  let sc := if sb then some (g r.ctx r.acts r.offAct) else none
+  (if c.eval != .none then (evalReward sb r p sc).map some else .ok none).bind fun er => mkRow c fl sp b r p er
+
+omit [DecidableEq V] [RewardFn R V] in
+theorem fuse_some {α β γ δ ε : Type} (F : α → β → γ → Except Err δ) (G : α → β → Option δ → Except Err ε)
+    (P : α → β) (S : α → γ) (xs : List α) (es : List δ) (out : List ε)
+    (h1 : mapM₃ F xs (xs.map P) (xs.map S) = .ok es) (h2 : mapM₃ G xs (xs.map P) (es.map some) = .ok out) :
+    mapE (fun x => ((F x (P x) (S x)).map some).bind (fun er => G x (P x) er)) xs = .ok out := by
+  induction xs generalizing es out with
+  | nil => simp only [List.map_nil, mapM₃] at h1 h2; cases h2; rfl
+  | cons x xs ih =>
+    simp only [List.map_cons, mapM₃, bind, Except.bind, pure, Except.pure] at h1
+    cases hF : F x (P x) (S x) with
+    | error e => rw [hF] at h1; cases h1
+    | ok d =>
+      rw [hF] at h1
+      cases hrest : mapM₃ F xs (xs.map P) (xs.map S) with
+      | error e => rw [hrest] at h1; cases h1
+      | ok ds =>
+        rw [hrest] at h1
+        simp only [Except.ok.injEq] at h1
+        subst h1
+        simp only [List.map_cons, mapM₃, bind, Except.bind, pure, Except.pure] at h2
+        cases hG : G x (P x) (some d) with
+        | error e => rw [hG] at h2; cases h2
+        | ok o =>
+          rw [hG] at h2
+          cases hr2 : mapM₃ G xs (xs.map P) (ds.map some) with
+          | error e => rw [hr2] at h2; cases h2
+          | ok os =>
+            rw [hr2] at h2
+            simp only [Except.ok.injEq] at h2
+            subst h2
+            have ih' := ih ds os hrest hr2
+            simp only [Except.map, Except.bind] at ih'
+            simp only [mapE, hF, Except.map, Except.bind, hG, ih']
+
+omit [DecidableEq V] [RewardFn R V] in
+theorem fuse_none {α β δ ε : Type} (G : α → β → Option δ → Except Err ε) (P : α → β) (xs : List α) (out : List ε)
+    (h2 : mapM₃ G xs (xs.map P) (List.replicate xs.length none) = .ok out) :
+    mapE (fun x => G x (P x) none) xs = .ok out := by
+  induction xs generalizing out with
+  | nil => simp only [List.map_nil, List.length_nil, List.replicate_zero, mapM₃] at h2; cases h2; rfl
+  | cons x xs ih =>
+    simp only [List.map_cons, List.length_cons, List.replicate_succ, mapM₃, bind, Except.bind, pure, Except.pure] at h2
+    cases hG : G x (P x) none with
+    | error e => rw [hG] at h2; cases h2
+    | ok o =>
+      rw [hG] at h2
+      cases hr2 : mapM₃ G xs (xs.map P) (List.replicate xs.length none) with
+      | error e => rw [hr2] at h2; cases h2
+      | ok os =>
+        rw [hr2] at h2
+        simp only [Except.ok.injEq] at h2
+        subst h2
+        simp only [mapE, hG, Except.bind, ih os hr2]
+
+omit [DecidableEq V] [RewardFn R V] in
+theorem optList_map {α β : Type} (on : Bool) (xs : List α) (P : α → β) (l : List β) (h : on = true → l = xs.map P) :
+    optList on xs.length l = xs.map (fun x => if on then some (P x) else none) := by
+  cases on with
+  | true => simp [optList, h rfl]
+  | false => simp [optList, List.map_const']
+
+/-- rows of one batch for an oblivious learner: computed row by row, independently of the learner state -/
+theorem stepChunk_rows {σ : Type} {L : Learner σ V} {f g} (ho : Oblivious L f g) (c : Config) (fl : Flags) (b : Bool)
+    (s s' : σ) (ch : List (Dict (Fld V R))) (cs : List (Call V)) (out : List (Row V R))
+    (h : stepChunk c fl L b s ch = .ok (s', cs, out)) :
+    ∃ rows full, prepAll c fl ch = .ok rows ∧ mapE (pureRow c fl L.hasScore b f g) rows = .ok full
+      ∧ out = full.filter (fun o => !o.isEmpty) := by
+  unfold stepChunk at h
+  cases hp : prepAll c fl ch with
+  | error e => rw [hp] at h; cases h
+  | ok rows =>
+    rw [hp] at h
+    simp only [Except.bind] at h
+    -- name the pieces
+    generalize hsp : shouldPred c L.hasScore = sp at h
+    generalize hsb : (c.eval == EvalMode.ips && L.hasScore && !sp) = sb at h
+    have hps : optList sp rows.length (if sp = true then predictPhase L s rows else (s, [], [])).2.1
+        = rows.map (fun r => if sp then some (f r.ctx r.acts) else none) := by
+      apply optList_map
+      intro hs; simp only [hs, if_true]; exact predictPhase_preds ho rows s
+    have hscs : ∀ s1, optList sb rows.length (if sb = true then scorePhase L s1 rows else (s1, [], [])).2.1
+        = rows.map (fun r => if sb then some (g r.ctx r.acts r.offAct) else none) := by
+      intro s1
+      apply optList_map
+      intro hs; simp only [hs, if_true]; exact scorePhase_scores ho rows s1
+    rw [hps, hscs] at h
+    cases hev : evalsOf c sb rows (rows.map (fun r => if sp then some (f r.ctx r.acts) else none))
+        (rows.map (fun r => if sb then some (g r.ctx r.acts r.offAct) else none)) with
+    | error e => rw [hev] at h; cases h
+    | ok evals =>
+      rw [hev] at h
+      simp only at h
+      cases hl : learnsOf c L (if sb = true then scorePhase L (if sp = true then predictPhase L s rows else (s, [], [])).1 rows
+          else ((if sp = true then predictPhase L s rows else (s, [], [])).1, [], [])).1 rows
+          (rows.map (fun r => if sp then some (f r.ctx r.acts) else none)) with
+      | error e => rw [hl] at h; cases h
+      | ok ll =>
+        rw [hl] at h
+        simp only at h
+        cases hm : mapM₃ (mkRow c fl sp b) rows (rows.map (fun r => if sp then some (f r.ctx r.acts) else none)) evals with
+        | error e => rw [hm] at h; simp [Except.map] at h
+        | ok out0 =>
+          rw [hm] at h
+          simp only [Except.map, Except.ok.injEq, Prod.mk.injEq] at h
+          refine ⟨rows, out0, rfl, ?_, h.2.2.symm⟩
+          unfold evalsOf at hev
+          by_cases he : (c.eval != .none) = true
+          · rw [if_pos he] at hev
+            obtain ⟨es, hes, hevals⟩ := Except.map_eq_ok hev
+            subst hevals
+            have := fuse_some (evalReward sb) (mkRow c fl sp b) _ _ rows es out0 hes hm
+            show mapE (fun r => pureRow c fl L.hasScore b f g r) rows = .ok out0
+            simp only [pureRow, hsp, hsb, if_pos he]
+            exact this
+          · rw [if_neg he] at hev
+            simp only [Except.ok.injEq] at hev
+            subst hev
+            have := fuse_none (mkRow c fl sp b) (fun r => if sp then some (f r.ctx r.acts) else none) rows out0 hm
+            show mapE (fun r => pureRow c fl L.hasScore b f g r) rows = .ok out0
+            simp only [pureRow, hsp, hsb, if_neg he, Except.bind]
+            exact this
+
+omit [DecidableEq V] [RewardFn R V] in
+theorem mapE_append {α β : Type} (F : α → Except Err β) (xs ys : List α) (a b : List β)
+    (h1 : mapE F xs = .ok a) (h2 : mapE F ys = .ok b) : mapE F (xs ++ ys) = .ok (a ++ b) := by
+  induction xs generalizing a with
+  | nil => simp only [mapE, Except.ok.injEq] at h1; subst h1; simpa using h2
+  | cons x xs ih =>
+    simp only [mapE, Except.bind] at h1
+    cases hx : F x with
+    | error e => rw [hx] at h1; cases h1
+    | ok y =>
+      rw [hx] at h1
+      cases hr : mapE F xs with
+      | error e => rw [hr] at h1; cases h1
+      | ok ys' =>
+        rw [hr] at h1
+        simp only [Except.ok.injEq] at h1
+        subst h1
+        simp only [List.cons_append, mapE, hx, Except.bind, ih ys' hr]
+
+theorem runChunks_rows {σ : Type} {L : Learner σ V} {f g} (ho : Oblivious L f g) (c : Config) (fl : Flags) (b : Bool)
+    (chs : List (List (Dict (Fld V R)))) (s s' : σ) (cs cs' : List (Call V)) (rs rs' : List (Row V R))
+    (h : runChunks c fl L b s cs rs chs = .ok (s', cs', rs')) :
+    ∃ rows full, mapE (prep c fl) chs.flatten = .ok rows ∧ mapE (pureRow c fl L.hasScore b f g) rows = .ok full
+      ∧ rs' = rs ++ full.filter (fun o => !o.isEmpty) := by
+  induction chs generalizing s cs rs with
+  | nil =>
+    simp only [runChunks, Except.ok.injEq, Prod.mk.injEq] at h
+    exact ⟨[], [], rfl, rfl, by simp [h.2.2]⟩
+  | cons ch rest ih =>
+    simp only [runChunks, Except.bind] at h
+    cases hs : stepChunk c fl L b s ch with
+    | error e => rw [hs] at h; cases h
+    | ok r1 =>
+      rw [hs] at h
+      simp only at h
+      obtain ⟨rows1, full1, hp1, hf1, ho1⟩ := stepChunk_rows ho c fl b s r1.1 ch r1.2.1 r1.2.2 hs
+      obtain ⟨rowsR, fullR, hpR, hfR, hoR⟩ := ih r1.1 (cs ++ r1.2.1) (rs ++ r1.2.2) h
+      rw [prepAll_eq_mapE] at hp1
+      refine ⟨rows1 ++ rowsR, full1 ++ fullR, ?_, mapE_append _ _ _ _ _ hf1 hfR, ?_⟩
+      · simp only [List.flatten_cons]; exact mapE_append _ _ _ _ _ hp1 hpR
+      · rw [hoR, ho1]; simp [List.filter_append, List.append_assoc]
+
+omit [DecidableEq V] [RewardFn R V] in
+theorem chunksAux_flatten {α : Type} (n : Nat) (hn : 0 < n) (fuel : Nat) (l : List α) (h : l.length ≤ fuel) :
+    (chunksAux n fuel l).flatten = l := by
+  induction fuel generalizing l with
+  | zero =>
+    have : l = [] := List.eq_nil_of_length_eq_zero (Nat.le_zero.mp h)
+    subst this; rfl
+  | succ k ih =>
+    cases l with
+    | nil => simp [chunksAux]
+    | cons x xs =>
+      simp only [chunksAux, List.isEmpty_cons, Bool.false_eq_true, if_false, List.flatten_cons]
+      rw [ih]
+      · exact List.take_append_drop n (x :: xs)
+      · simp only [List.length_drop, List.length_cons] at h ⊢; omega
+
+omit [DecidableEq V] [RewardFn R V] in
+theorem chunks_flatten {α : Type} (n : Nat) (hn : 0 < n) (l : List α) : (chunks n l).flatten = l :=
+  chunksAux_flatten n hn _ l (Nat.le_refl _)
+
+omit [DecidableEq V] [RewardFn R V] in
+theorem readRow_extras {c : Config} {fl : Flags} {d : Dict (Fld V R)} {r : RowIn V R} (h : readRow c fl d = .ok r) :
+    r.extras = extrasOf d := by
+  simp only [readRow, bind, Except.bind, pure, Except.pure] at h
+  repeat' split at h
+  all_goals first
+    | (simp only [Except.ok.injEq] at h; subst h; rfl)
+    | cases h
+
+omit [DecidableEq V] [RewardFn R V] in
+theorem prep_extras {c : Config} {fl : Flags} {d : Dict (Fld V R)} {r : RowIn V R} (h : prep c fl d = .ok r) :
+    ∀ kv ∈ r.extras, kv.1 ≠ "probability" := by
+  simp only [prep, bind, Except.bind] at h
+  cases hp : pipeline c fl d with
+  | error e => rw [hp] at h; cases h
+  | ok d3 =>
+    rw [hp] at h
+    simp only at h
+    rw [readRow_extras h]
+    intro kv hkv heq
+    have := extras_fresh d3 kv hkv
+    rw [heq] at this
+    exact this (by decide)
+
+omit [DecidableEq V] [RewardFn R V] in
+theorem mapE_prep_extras {c : Config} {fl : Flags} (ds : List (Dict (Fld V R))) (rows : List (RowIn V R))
+    (h : mapE (prep c fl) ds = .ok rows) : ∀ r ∈ rows, ∀ kv ∈ r.extras, kv.1 ≠ "probability" := by
+  induction ds generalizing rows with
+  | nil => simp only [mapE, Except.ok.injEq] at h; subst h; simp
+  | cons d ds ih =>
+    simp only [mapE, Except.bind] at h
+    cases hx : prep c fl d with
+    | error e => rw [hx] at h; cases h
+    | ok r =>
+      rw [hx] at h
+      cases hr : mapE (prep c fl) ds with
+      | error e => rw [hr] at h; cases h
+      | ok rs =>
+        rw [hr] at h
+        simp only [Except.ok.injEq] at h
+        subst h
+        intro r' hr'
+        simp only [List.mem_cons] at hr'
+        rcases hr' with rfl | hr'
+        · exact prep_extras hx
+        · exact ih rs hr r' hr'
+
+omit [DecidableEq V] [RewardFn R V] in
+theorem isNoneProb_of_ne (k : String) (cell : Cell V R) (hk : k ≠ "probability") : isNoneProb (k, cell) = false := by
+  unfold isNoneProb
+  split
+  · rename_i heq; simp only [Prod.mk.injEq] at heq; exact absurd heq.1 hk
+  · rfl
+
+omit [DecidableEq V] [RewardFn R V] in
+theorem dropNoneProb_set (o : Row V R) (k : String) (v : Fld V R) (hk : k ≠ "probability") :
+    dropNoneProb (Dict.set o k (Cell.fld v)) = Dict.set (dropNoneProb o) k (Cell.fld v) := by
+  induction o with
+  | nil => simp [Dict.set, dropNoneProb, isNoneProb_of_ne k _ hk]
+  | cons hd tl ih =>
+    obtain ⟨k1, v1⟩ := hd
+    by_cases h1 : k1 = k
+    · subst h1
+      simp [Dict.set, dropNoneProb, List.filter_cons, isNoneProb_of_ne k1 _ hk]
+    · unfold dropNoneProb at ih ⊢
+      simp only [Dict.set, h1, if_false, List.filter_cons]
+      by_cases hb : isNoneProb (k1, v1) = true
+      · simp [hb, ih]
+      · simp [hb, Dict.set, h1, ih]
+
+omit [DecidableEq V] [RewardFn R V] in
+theorem dropNoneProb_foldl (ex : Dict (Fld V R)) (o : Row V R) (hk : ∀ kv ∈ ex, kv.1 ≠ "probability") :
+    dropNoneProb (ex.foldl (fun o kv => Dict.set o kv.1 (Cell.fld kv.2)) o)
+      = ex.foldl (fun o kv => Dict.set o kv.1 (Cell.fld kv.2)) (dropNoneProb o) := by
+  induction ex generalizing o with
+  | nil => rfl
+  | cons kv ex ih =>
+    simp only [List.foldl_cons]
+    rw [ih _ (fun kv' h' => hk kv' (by simp [h'])), dropNoneProb_set _ _ _ (hk kv (by simp))]
+
+theorem mkRow_flag (c : Config) (fl : Flags) (sp : Bool) (r : RowIn V R) (p : Option (Pred V)) (er : Option Rat)
+    (hex : ∀ kv ∈ r.extras, kv.1 ≠ "probability") :
+    (mkRow c fl sp true r p er).map dropNoneProb = mkRow c fl sp false r p er := by
+  unfold mkRow
+  cases hx : rewardsCell c fl r with
+  | error e => rfl
+  | ok rw =>
+    have hk := rewardsCell_keys hx
+    simp only [Except.map, Except.ok.injEq]
+    rw [dropNoneProb_foldl _ _ hex]
+    congr 1
+    have hrw : dropNoneProb rw = rw := by
+      unfold dropNoneProb
+      apply List.filter_eq_self.mpr
+      intro b hb
+      have : isNoneProb b = false := by
+        obtain ⟨k, cell⟩ := b
+        have := hk _ hb
+        simp only at this
+        subst this
+        exact isNoneProb_of_ne _ _ (by decide)
+      simp [this]
+    have hcat : ∀ a b : Row V R, dropNoneProb (a ++ b) = dropNoneProb a ++ dropNoneProb b := by
+      intro a b; simp [dropNoneProb, List.filter_append]
+    simp only [hcat, hrw]
+    have h1 : dropNoneProb (if c.rcd "context" = true then [("context", Cell.val r.ctx)] else ([] : Row V R))
+        = (if c.rcd "context" = true then [("context", Cell.val r.ctx)] else []) := by
+      split <;> simp [dropNoneProb, isNoneProb]
+    have h2 : dropNoneProb (if (c.rcd "actions" && fl.hasActions) = true then [("actions", Cell.acts r.acts)] else ([] : Row V R))
+        = (if (c.rcd "actions" && fl.hasActions) = true then [("actions", Cell.acts r.acts)] else []) := by
+      split <;> simp [dropNoneProb, isNoneProb]
+    have h3 : dropNoneProb (if outAction c = true then [("action", Cell.val (p.map (·.action)))] else ([] : Row V R))
+        = (if outAction c = true then [("action", Cell.val (p.map (·.action)))] else []) := by
+      split <;> simp [dropNoneProb, isNoneProb]
+    have h4 : dropNoneProb (if (c.rcd "reward" && c.eval != EvalMode.none) = true then [("reward", Cell.num er)] else ([] : Row V R))
+        = (if (c.rcd "reward" && c.eval != EvalMode.none) = true then [("reward", Cell.num er)] else []) := by
+      split <;> simp [dropNoneProb, isNoneProb]
+    rw [h1, h2, h3, h4]
+    congr 1
+    cases hpr : p.bind (·.prob) with
+    | none =>
+      by_cases hc : (outProb c && sp) = true
+      · simp [hc, dropNoneProb, isNoneProb]
+      · simp [hc, dropNoneProb]
+    | some q =>
+      by_cases hc : (outProb c && sp) = true
+      · simp [hc, dropNoneProb, isNoneProb]
+      · simp [hc, dropNoneProb]
+
+theorem pureRow_flag (c : Config) (fl : Flags) (hs : Bool) (f : Option V → Option (List V) → Pred V)
+    (g : Option V → Option (List V) → Option V → Rat) (r : RowIn V R) (hex : ∀ kv ∈ r.extras, kv.1 ≠ "probability") :
+    (pureRow c fl hs true f g r).map dropNoneProb = pureRow c fl hs false f g r := by
+  unfold pureRow
+  simp only
+  generalize (if (c.eval != EvalMode.none) = true then
+      Except.map some (evalReward (c.eval == EvalMode.ips && hs && !shouldPred c hs) r
+        (if shouldPred c hs = true then some (f r.ctx r.acts) else none)
+        (if (c.eval == EvalMode.ips && hs && !shouldPred c hs) = true then some (g r.ctx r.acts r.offAct) else none))
+    else Except.ok none) = E
+  cases E with
+  | error e => rfl
+  | ok er => simp only [Except.bind]; exact mkRow_flag c fl _ r _ er hex
+
+theorem mapE_pureRow_flag (c : Config) (fl : Flags) (hs : Bool) (f : Option V → Option (List V) → Pred V)
+    (g : Option V → Option (List V) → Option V → Rat) (rows : List (RowIn V R)) (full : List (Row V R))
+    (hex : ∀ r ∈ rows, ∀ kv ∈ r.extras, kv.1 ≠ "probability")
+    (h : mapE (pureRow c fl hs true f g) rows = .ok full) :
+    mapE (pureRow c fl hs false f g) rows = .ok (full.map dropNoneProb) := by
+  induction rows generalizing full with
+  | nil => simp only [mapE, Except.ok.injEq] at h; subst h; rfl
+  | cons r rs ih =>
+    simp only [mapE, Except.bind] at h
+    cases hx : pureRow c fl hs true f g r with
+    | error e => rw [hx] at h; cases h
+    | ok o =>
+      rw [hx] at h
+      cases hr : mapE (pureRow c fl hs true f g) rs with
+      | error e => rw [hr] at h; cases h
+      | ok os =>
+        rw [hr] at h
+        simp only [Except.ok.injEq] at h
+        subst h
+        have h1 := pureRow_flag c fl hs f g r (hex r (by simp))
+        rw [hx] at h1
+        simp only [Except.map] at h1
+        simp only [mapE, ← h1, Except.bind, ih os (fun r' hr' => hex r' (by simp [hr'])) hr, List.map_cons]
+
+omit [DecidableEq V] [RewardFn R V] in
+theorem filter_drop_filter (xs : List (Row V R)) :
+    ((xs.filter (fun o => !o.isEmpty)).map dropNoneProb).filter (fun o => !o.isEmpty)
+      = (xs.map dropNoneProb).filter (fun o => !o.isEmpty) := by
+  induction xs with
+  | nil => rfl
+  | cons x xs ih =>
+    cases x with
+    | nil => simp [List.filter_cons, dropNoneProb, ih]
+    | cons a as => simp [List.filter_cons, ih]
+
+omit [DecidableEq V] [RewardFn R V] in
+theorem ofExcept_eq_ok {α : Type} {x : Except Err α} {a : α} (h : Outcome.ofExcept x = .ok a) : x = .ok a := by
+  cases x with
+  | error e => simp [Outcome.ofExcept] at h
+  | ok b => simp only [Outcome.ofExcept, Outcome.ok.injEq] at h; rw [h]
+
+/-- batched evaluation (any batch size n ≥ 1) and unbatched evaluation record the same rows when the learner's
+answers do not depend on what it has seen; the batched code path writes `probability: None` cells where the
+unbatched one writes nothing, which is the only difference -/
+theorem batched_eq_unbatched' {σ : Type} {L : Learner σ V} {f : Option V → Option (List V) → Pred V}
+    {g : Option V → Option (List V) → Option V → Rat} (ho : Oblivious L f g) (c : Config) (n : Nat) (hn : 0 < n)
+    (env : List (Dict (Fld V R))) (s sb su : σ) (cb cu : List (Call V)) (rb ru : List (Row V R))
+    (hb : evaluate c L (some n) env s = .ok (sb, cb, rb)) (hu : evaluate c L none env s = .ok (su, cu, ru)) :
+    ru = (rb.map dropNoneProb).filter (fun o => !o.isEmpty) := by
+  cases env with
+  | nil =>
+    simp only [evaluate, Outcome.ok.injEq, Prod.mk.injEq] at hb hu
+    rw [← hb.2.2, ← hu.2.2]; rfl
+  | cons first rest =>
+    simp only [evaluate] at hb hu
+    cases hm : missingKeys c L.hasScore first with
+    | cons k ks => rw [hm] at hb; simp at hb
+    | nil =>
+      rw [hm] at hb hu
+      simp only [List.isEmpty_nil, Bool.not_true, Bool.false_eq_true, if_false] at hb hu
+      obtain ⟨rowsB, fullB, hpB, hfB, hoB⟩ := runChunks_rows ho c _ true _ s sb [] cb [] rb (ofExcept_eq_ok hb)
+      obtain ⟨rowsU, fullU, hpU, hfU, hoU⟩ := runChunks_rows ho c _ false _ s su [] cu [] ru (ofExcept_eq_ok hu)
+      rw [chunks_flatten n hn] at hpB
+      rw [chunks_flatten 1 (by decide)] at hpU
+      rw [hpB] at hpU
+      simp only [Except.ok.injEq] at hpU
+      subst hpU
+      have hflag := mapE_pureRow_flag c _ L.hasScore f g rowsB fullB (mapE_prep_extras _ _ hpB) hfB
+      rw [hflag] at hfU
+      simp only [Except.ok.injEq] at hfU
+      subst hfU
+      simp only [List.nil_append] at hoB hoU
+      rw [hoU, hoB, filter_drop_filter]
+
+/-! ## the spec (hence the model) is defined on every well-formed environment that passes validation -/
+
+theorem envReward_isSome {fl : Flags} {d : Dict (Fld V R)} (h : WF fl d) (hr : fl.hasRewards = true) (a : V) :
+    ∃ x, envReward (view d) a = some x := by
+  have hh := hasRewards_iff h
+  rw [hr] at hh
+  cases WFR_of_WF h with
+  | absent h0 => simp [view] at h0; rw [h0] at hh; simp at hh
+  | list rs as h1 h2 =>
+    simp only [envReward, h1, h2]
+    cases (as.zip rs).lookup a <;> simp
+  | fn f h1 => simp [envReward, h1]
+
+omit [RewardFn R V] in
+theorem ipsReward_isSome {fl : Flags} {d : Dict (Fld V R)} (h : WF fl d) (hr : fl.hasReward = true) (a : Option V) :
+    ∃ x, ipsReward (view d) a = some x := by
+  have h5 := h.rwd
+  simp only [ipsReward, view]
+  cases hg : d.get? "reward" with
+  | none => simp_all
+  | some f => cases f <;> simp_all [viewNum]
+
+theorem rewardsAtS_isSome {fl : Flags} {d : Dict (Fld V R)} (h : WF fl d) (hr : fl.hasRewards = true) (as : List V) :
+    ∃ xs, rewardsAtS (view d) as = some xs := by
+  induction as with
+  | nil => exact ⟨[], rfl⟩
+  | cons a as ih =>
+    obtain ⟨x, hx⟩ := envReward_isSome h hr a
+    obtain ⟨xs, hxs⟩ := ih
+    exact ⟨x :: xs, by simp [rewardsAtS, hx, hxs]⟩
+
+theorem rowS_isSome {c : Config} {fl : Flags} {d : Dict (Fld V R)} (h : WF fl d)
+    (hda : fl.discrete = true → fl.hasActions = true) (p : Option (Pred V)) (er : Option Rat) :
+    ∃ row, rowS c fl (view d) p er = some row := by
+  have : (rewardsCellS c fl (view d)).isSome = true := by
+    unfold rewardsCellS
+    by_cases h1 : (c.rcd "rewards" && fl.hasRewards) = true
+    · rw [if_pos h1]
+      have hr : fl.hasRewards = true := by simp at h1; exact h1.2
+      by_cases h2 : fl.discrete = true
+      · rw [if_pos h2]
+        have ha := h.acts
+        rw [hda h2] at ha
+        cases hg : d.get? "actions" with
+        | none => rw [hg] at ha; simp at ha
+        | some fa =>
+          rw [hg] at ha
+          cases fa <;> simp at ha
+          rename_i as
+          obtain ⟨xs, hxs⟩ := rewardsAtS_isSome h hr as
+          have hv : (view d).acts = some as := by simp [view, hg, viewActs]
+          simp only [hv, hxs, Option.map_some, Option.isSome_some]
+      · rw [if_neg h2]
+        have hh := hasRewards_iff h
+        rw [hr] at hh
+        cases hg : d.get? "rewards" with
+        | none => rw [hg] at hh; simp at hh
+        | some f =>
+          have hv : (view d).rewards = some f := by simp [view, hg]
+          simp only [hv, Option.map_some, Option.isSome_some]
+    · rw [if_neg h1]; rfl
+  cases hrw : rewardsCellS c fl (view d) with
+  | none => rw [hrw] at this; cases this
+  | some rw => exact ⟨_, by simp only [rowS, hrw, Option.map_some]; rfl⟩
+
+theorem specInter_isSome {σ : Type} {c : Config} {fl : Flags} (L : Learner σ V) (s : σ) {d : Dict (Fld V R)}
+    (h : WF fl d) (hv : Valid c L.hasScore fl) (hda : fl.discrete = true → fl.hasActions = true) :
+    ∃ r, specInter c fl L s (view d) = some r := by
+  unfold specInter
+  simp only
+  -- recorded reward
+  have hE : ∃ er, (if (c.eval != EvalMode.none) = true then
+        Option.map some (evalRewardS c (view d)
+          (if needPred c L.hasScore = true then some (L.predict s (view d).ctx (view d).acts).2 else none)
+          (if (c.eval == EvalMode.ips && L.hasScore && !needPred c L.hasScore) = true then
+            some (L.score (if needPred c L.hasScore = true then (L.predict s (view d).ctx (view d).acts).1 else s)
+              (view d).ctx (view d).acts (view d).offAct).2 else none))
+      else some none) = some er := by
+    cases he : c.eval with
+    | none => exact ⟨none, by simp⟩
+    | on =>
+      have hn : needPred c L.hasScore = true := by simp [needPred, he]
+      obtain ⟨x, hx⟩ := envReward_isSome h (hv.rwds (Or.inr he)) (L.predict s (view d).ctx (view d).acts).2.action
+      exact ⟨some x, by simp [hn, evalRewardS, hx, bne, he]⟩
+    | ips =>
+      have hR := (hv.logged (Or.inr (Or.inr he))).2
+      cases hn : needPred c L.hasScore with
+      | true =>
+        obtain ⟨x, hx⟩ := ipsReward_isSome h hR (some (L.predict s (view d).ctx (view d).acts).2.action)
+        exact ⟨some x, by simp [evalRewardS, hx, bne, he]⟩
+      | false =>
+        have hsc : L.hasScore = true := by
+          cases hs : L.hasScore with
+          | true => rfl
+          | false => simp [needPred, he, hs] at hn
+        obtain ⟨x, hx⟩ := ipsReward_isSome h hR (view d).offAct
+        exact ⟨some ((L.score s (view d).ctx (view d).acts (view d).offAct).2 * x), by simp [evalRewardS, hx, bne, hsc, he]⟩
+  obtain ⟨er, hEr⟩ := hE
+  rw [hEr]
+  simp only [Option.bind_some]
+  -- learn call
+  have hLA : ∃ a, (if (c.learn != LearnMode.none) = true then
+        Option.map (fun a => (L.learn (if (c.eval == EvalMode.ips && L.hasScore && !needPred c L.hasScore) = true then
+              (L.score (if needPred c L.hasScore = true then (L.predict s (view d).ctx (view d).acts).1 else s)
+                (view d).ctx (view d).acts (view d).offAct).1
+            else if needPred c L.hasScore = true then (L.predict s (view d).ctx (view d).acts).1 else s)
+          (view d).ctx a.1 a.2.1 a.2.2.1 a.2.2.2, [Call.learn (view d).ctx a.1 a.2.1 a.2.2.1 a.2.2.2]))
+          (learnArgsS c (view d) (if needPred c L.hasScore = true then some (L.predict s (view d).ctx (view d).acts).2 else none))
+      else some (if (c.eval == EvalMode.ips && L.hasScore && !needPred c L.hasScore) = true then
+              (L.score (if needPred c L.hasScore = true then (L.predict s (view d).ctx (view d).acts).1 else s)
+                (view d).ctx (view d).acts (view d).offAct).1
+            else if needPred c L.hasScore = true then (L.predict s (view d).ctx (view d).acts).1 else s, [])) = some a := by
+    cases hl : c.learn with
+    | none => exact ⟨_, by simp [hl]; rfl⟩
+    | off => exact ⟨_, by simp [learnArgsS, bne, hl]; rfl⟩
+    | on =>
+      have hn : needPred c L.hasScore = true := by simp [needPred, hl]
+      obtain ⟨x, hx⟩ := envReward_isSome h (hv.rwds (Or.inl hl)) (L.predict s (view d).ctx (view d).acts).2.action
+      exact ⟨_, by simp [learnArgsS, hn, hx, bne, hl]; rfl⟩
+    | ips =>
+      have hn : needPred c L.hasScore = true := by simp [needPred, hl]
+      obtain ⟨x, hx⟩ := ipsReward_isSome h (hv.logged (Or.inr (Or.inl hl))).2 (some (L.predict s (view d).ctx (view d).acts).2.action)
+      exact ⟨_, by simp [learnArgsS, hn, hx, bne, hl]; rfl⟩
+  obtain ⟨a, ha⟩ := hLA
+  rw [ha]
+  simp only [Option.bind_some]
+  obtain ⟨row, hrow⟩ := rowS_isSome (c := c) h hda
+    (if needPred c L.hasScore = true then some (L.predict s (view d).ctx (view d).acts).2 else none) er
+  exact ⟨_, by rw [hrow]; rfl⟩
+
+theorem specRun_isSome {σ : Type} {c : Config} {fl : Flags} (L : Learner σ V) (hv : Valid c L.hasScore fl)
+    (hda : fl.discrete = true → fl.hasActions = true) (env : List (Dict (Fld V R))) (hall : ∀ d ∈ env, WF fl d) (s : σ) :
+    ∃ r, specRun c fl L s (env.map view) = some r := by
+  induction env generalizing s with
+  | nil => exact ⟨_, rfl⟩
+  | cons d ds ih =>
+    obtain ⟨r1, h1⟩ := specInter_isSome L s (hall d (by simp)) hv hda
+    obtain ⟨r2, h2⟩ := ih (fun d' hd' => hall d' (by simp [hd'])) r1.1
+    exact ⟨_, by simp only [List.map_cons, specRun, h1, Option.bind_some, h2, Option.map_some]; rfl⟩
+
+omit [DecidableEq V] [RewardFn R V] in
+theorem discrete_hasActions (first : Dict (Fld V R)) : (mkFlags first).discrete = true → (mkFlags first).hasActions = true := by
+  simp only [mkFlags, isDiscrete, Dict.has]
+  cases first.get? "actions" with
+  | none => simp
+  | some f => simp
+
+/-- on a well-formed environment that passes validation the evaluation succeeds -/
+theorem evaluate_ok' {σ : Type} (c : Config) (L : Learner σ V) (first : Dict (Fld V R)) (rest : List (Dict (Fld V R)))
+    (s : σ) (H : Hyp c L first rest) : ∃ out, evaluate c L none (first :: rest) s = .ok out := by
+  have hv := valid_of_missing_nil c L.hasScore first H.valid
+  obtain ⟨r, hr⟩ := specRun_isSome L hv (discrete_hasActions first) (first :: rest)
+    (fun d hd => (wfEnv_all H.wf d hd).1) s
+  have := evaluate_refines' c L first rest s H.wf H.valid H.seq
+  rw [hr] at this
+  simp only [Option.map_some] at this
+  exact ⟨_, Outcome.toOpt_eq_some.mp this⟩
+
 end Coba.C06
